@@ -217,8 +217,125 @@ def r5(fx):
         yield ob(f'v{v}: encoding region = complement of function patterns ({n * n} cells)', not bad, ffn, got=bad[:5], want=[])
 
 
+def _probe_matrices(n=21):
+    """A fixed family of n x n symbols that exercises every clause of ISO 7.8.3.1: runs of every length at the line start, middle
+    and end (rows and columns), uniform blocks, the 1:1:3:1:1 pattern at every offset class with and without the light area on
+    either side, overlapping patterns, uniform / striped / chequered symbols, and a few pseudo-random ones."""
+    def blank(v=0):
+        return [[v] * n for _ in range(n)]
+    out = [('all light', blank()), ('all dark', blank(1)), ('chequered', [[(r + c) & 1 for c in range(n)] for r in range(n)]),
+           ('row stripes', [[r & 1] * n for r in range(n)]), ('column stripes', [[c & 1 for c in range(n)] for _ in range(n)])]
+    for ln in (4, 5, 6, 7, 9, n):
+        for c0 in sorted(c_ for c_ in {0, 8, n - ln} if c_ + ln <= n):
+            for r in (0, n // 2, n - 1):
+                m = [[(r_ + c_) & 1 for c_ in range(n)] for r_ in range(n)]       # a background without runs
+                for c in range(c0, c0 + ln):
+                    m[r][c] = 1 if ln % 2 else 0
+                out.append((f'run of {ln} in row {r} from column {c0}', m))
+                out.append((f'run of {ln} in column {r} from row {c0}', [list(x) for x in zip(*m)]))
+    for (h, w) in ((2, 2), (2, 3), (3, 3), (4, 2)):
+        for (r0, c0) in ((0, 0), (n // 2, n // 2), (n - h, n - w)):
+            m = [[(r_ + c_) & 1 for c_ in range(n)] for r_ in range(n)]
+            for r in range(r0, r0 + h):
+                for c in range(c0, c0 + w):
+                    m[r][c] = 1
+            out.append((f'{h}x{w} dark block at ({r0}, {c0})', m))
+    pat7 = [1, 0, 1, 1, 1, 0, 1]
+    for off in (0, 1, 3, 4, 5, 7, n - 11, n - 8, n - 7):
+        for before, after in ((0, 0), (1, 0), (0, 1), (1, 1)):
+            m = blank()
+            for r in (2, n - 3):
+                row = [0] * n
+                row[off:off + 7] = pat7
+                if before and off >= 1:
+                    row[max(off - 4, 0)] = 1
+                if after and off + 7 < n:
+                    row[min(off + 10, n - 1)] = 1
+                m[r] = row
+            out.append((f'1011101 at column {off}, dark before: {before}, dark after: {after}', m))
+            out.append((f'1011101 at row {off}, dark before: {before}, dark after: {after}', [list(x) for x in zip(*m)]))
+    m = blank()
+    m[5][2:13] = [1, 0, 1, 1, 1, 0, 1, 1, 1, 0, 1]
+    m[9][0:15] = [1, 0, 1, 1, 1, 0, 1, 0, 1, 0, 1, 1, 1, 0, 1]
+    out.append(('overlapping 1011101 patterns', m))
+    out.append(('overlapping 1011101 patterns in columns', [list(x) for x in zip(*m)]))
+    x = 12345
+    for k in range(6):
+        m = blank()
+        for r in range(n):
+            for c in range(n):
+                x = (1103515245 * x + 12345) & 0x7FFFFFFF
+                m[r][c] = 1 if (x >> 16) % 100 < (30, 45, 50, 55, 70, 50)[k] else 0
+        out.append((f'pseudo-random symbol {k}', m))
+    return out
+
+
+def _scores_witness(fx):
+    """A symbol on which mask_scores, interpreted, differs from the ISO penalty - or None if none of the probe symbols shows a
+    difference.  Used only to *refute*: a difference is a concrete counterexample; no difference proves nothing."""
+    it = Interp(max_steps=2_000_000_000)
+    genv = encoder_env(fx.forest, it)
+    f = FuncVal(fx.fn('encoder', 'mask_scores'), genv, it)
+    n = 21
+    for desc, rows in _probe_matrices(n):
+        want = iso.penalty(rows)
+        try:
+            got = f([bytearray(r) for r in rows], n, n)
+            got = tuple(int(v) for v in got)
+        except PyRaise as ex:
+            got = f'raises {ex.name}'
+        if got != want:
+            return f'{desc}: mask_scores gives {got}, ISO 7.8.3.1 gives {want}'
+    return None
+
+
+def refute_or_unknown(gen, witness, what):
+    """Run a shape rule.  If every obligation holds the shape argument stands.  Otherwise the code does not have the shape the
+    rule can argue about - which is not a defect by itself: look for a concrete counterexample; report a violation only with
+    one, else UNKNOWN."""
+    obs, why = [], None
+    try:
+        for o in gen:
+            obs.append(o)
+    except Unknown as u:
+        why = f'shape not recognised: {u}'
+    if why is None and all(o.ok for o in obs):
+        yield from obs
+        return
+    if why is None:
+        bad = [o for o in obs if not o.ok]
+        why = f'shape differs: {bad[0].key}: {str(bad[0].got)[:120]}'
+    w = witness()
+    if w is not None:
+        for o in obs:
+            if o.ok:
+                yield o
+        yield ob(what, False, None, got=w, want='the ISO value')
+        return
+    raise Unknown(f'{why}; evaluating the function on the probe inputs found no difference from the ISO value (no verdict)')
+
+
+_WITNESS_CACHE = {}
+
+
+def _cached_scores_witness(fx):
+    k = id(fx.forest)
+    if k not in _WITNESS_CACHE:
+        _WITNESS_CACHE.clear()
+        _WITNESS_CACHE[k] = _scores_witness(fx)
+    return _WITNESS_CACHE[k]
+
+
 @rule('C06', 'R6', 7, 'N1: four sites share threshold >= 5 and score counter - 2 (row/column siblings); N2: 3 per 2x2 block')
 def r6(fx):
+    fn = fx.fn('encoder', 'mask_scores')
+    for o in refute_or_unknown(_r6_shape(fx), lambda: _cached_scores_witness(fx), 'mask_scores = ISO 7.8.3.1 penalty on the probe symbols (N1, N2)'):
+        if o.where in (None, ''):
+            o = ob(o.key, o.ok, fn, got=o.got, want=o.want)
+        yield o
+
+
+def _r6_shape(fx):
     fn = fx.fn('encoder', 'mask_scores')
     need_no_new_helpers(fx, 'encoder', fn)
     # the run counters: locals incremented by one (`X += 1`) and reset to 1
@@ -316,6 +433,14 @@ def _self_overlap(lit):
 
 @rule('C06', 'R7', 5, 'N3: literal 1011101, 40 points, light-area test 4 wide on either side or symbol edge, search resumes within the self-overlap shift')
 def r7(fx):
+    fn = fx.fn('encoder', 'mask_scores')
+    for o in refute_or_unknown(_r7_shape(fx), lambda: _cached_scores_witness(fx), 'mask_scores = ISO 7.8.3.1 penalty on the probe symbols (N3)'):
+        if o.where in (None, ''):
+            o = ob(o.key, o.ok, fn, got=o.got, want=o.want)
+        yield o
+
+
+def _r7_shape(fx):
     fn = fx.fn('encoder', 'mask_scores')
     need_no_new_helpers(fx, 'encoder', fn)
     env = ev.base_env(fx.forest, 'encoder')
